@@ -30,7 +30,7 @@ JudgeUnify(C) ==
       v2b == UnifyVerdict(C.x, C.yh, C.head2, "rulehead", FALSE)
       v2c == UnifyVerdict(C.x, C.yh, C.head3, "rulehead-with-body-variables", FALSE)
       v3 == IF C.eq.ok # 2 /\ C.neq.ok # 2 /\ (C.neq.ok = 1) # (C.eq.ok = 0) THEN "neq-not-complement-of-eq" ELSE ""
-  IN  IF v1 # "" THEN v1 ELSE IF v2 # "" THEN v2 ELSE IF v2b # "" THEN v2b ELSE IF v2c # "" THEN v2c ELSE v3
+  IN  IF v1 # "" THEN v1 ELSE IF v3 # "" THEN v3 ELSE IF v2 # "" THEN v2 ELSE IF v2b # "" THEN v2b ELSE v2c
 
 B(x) == x = 1
 JudgeCmp(C) ==
